@@ -1716,3 +1716,12 @@ mut("C01", "tokenizer-plain-line-split-whitespace", "R01-5|parsers::parser_line:
     }
     let mut sep = String::new();
     // `sep_second` is for commands like this:"""))
+
+mut("C10", "glue-without-delimiting", "R10-9|parsers::parser_line::parse_line|glue-after-quote|name-delimited",
+    "text after a closing double quote is appended without delimiting a trailing $NAME",
+    (P, """            } else if semi_ok && sep == "\\"" && i > 0 && line.chars().nth(i - 1) == Some('"') {
+                // `"$FOO"bar`: the closing quote ended the variable name
+                token = delimit_trailing_name(&token);
+            }
+""", """            }
+"""))
